@@ -558,6 +558,14 @@ func ruleC23(c *Ctx) {
 	}
 	c.RequireCallers("whocalls", c.Func(pProto, "(*Chain).setState"), map[string]string{"(*protocol.Chain).reorganizeChain": "only entry"})
 	rt := c.Func(pProto, "(*TxPool).RemoveTransaction")
+	if rt != nil {
+		// a removed transaction leaves the pool completely: every output it indexed is unindexed
+		for _, d := range deletesOf(rt, "protocol.TxPool", "utxo") {
+			h, exits := loopExitEdges(d)
+			c.Require("loopshape", fname(rt)+": every output of the removed transaction is unindexed (loop without early exit)", h != nil && len(exits) == 0, "%d early exit(s)", len(exits))
+		}
+		c.Require("pairing", fname(rt)+": removes from pool and output index", len(deletesOf(rt, "protocol.TxPool", "pool")) == 1 && len(deletesOf(rt, "protocol.TxPool", "utxo")) == 1, "deletes")
+	}
 	c.RequireFactsAtCalls("facts", rt, "(*event.Dispatcher).Post", "lookup:protocol.TxPool.pool#1 = true")
 	at := c.Func(pProto, "(*TxPool).addTransaction")
 	if at != nil {
